@@ -45,7 +45,7 @@ import (
 
 func init() { Register("C06", Domain{Gen: c06Gen, Run: c06Run}) }
 
-const c06OpTimeout = 4 * time.Second
+const c06OpTimeout = 1500 * time.Millisecond
 
 type c06State struct {
 	rig     *Rig
@@ -420,12 +420,26 @@ func (s *c06State) exec(f []string) string {
 			return "nilnil"
 		}
 		resp = c06Wire(resp, &hydrapb.SetResponse{})
-		if len(resp.Swamps) != 1 {
-			return fmt.Sprintf("set ?swamps=%d", len(resp.Swamps))
+		if len(resp.Swamps) == 0 {
+			return "set ?swamps=0"
 		}
 		r := resp.Swamps[0]
 		if r.ErrorCode != nil {
-			return "set ERR:" + r.ErrorCode.String()
+			// extra response entries for the same request swamp are shown as "+..."
+			out := "set ERR:" + r.ErrorCode.String()
+			for _, x := range resp.Swamps[1:] {
+				out += " +"
+				if x.ErrorCode != nil {
+					out += "ERR:" + x.ErrorCode.String()
+				}
+				for _, ks := range x.KeysAndStatuses {
+					out += c06Status(ks.Status) + ","
+				}
+			}
+			return out
+		}
+		if len(resp.Swamps) != 1 {
+			return fmt.Sprintf("set ?swamps=%d", len(resp.Swamps))
 		}
 		out := []string{"set"}
 		for i, ks := range r.KeysAndStatuses {
@@ -1107,7 +1121,7 @@ func c06RandOp(rng *rand.Rand, meta bool) string {
 		return "issw"
 	case r < 77:
 		return c06IncOp(rng, c06Pick(rng, c06Keys))
-	case r < 84:
+	case r < 87:
 		return "push " + c06U32Pairs(rng)
 	case r < 89:
 		return "u32del " + c06U32Pairs(rng)
